@@ -1297,9 +1297,32 @@ def _run_usets(sh, params, bulk, nb, n2p):
         if np.abs(uv[:, 0]).max() >= 9e5:
             sh.refused += 1
             continue
+        # SPOINT rows in the table (e.g. the modal DOF of a Craig-Bampton component) have
+        # no GRID card and are simply left out; they may sit anywhere between the grids
+        u_in = u
+        nsp = 0
+        if i % 5 in (1, 3):
+            import pandas as pd
+            nsp = int(r.integers(1, 9))
+            free = np.setdiff1d(np.arange(1, 20000), gids)
+            sids = np.sort(r.choice(free, nsp, replace=False)).astype(np.int64)
+            dof0 = np.zeros((nsp, 2), np.int64)
+            dof0[:, 0] = sids
+            sp = n2p.make_uset(dof0, n2p.mkusetmask("q"), np.zeros((nsp, 3)))
+            blocks = [u.iloc[6 * k:6 * k + 6] for k in range(ng)]
+            where = np.sort(r.integers(0, ng + 1, nsp)) if i % 5 == 1 \
+                else np.full(nsp, ng)
+            parts = []
+            for k in range(ng + 1):
+                parts += [sp.iloc[j:j + 1] for j in np.nonzero(where == k)[0]]
+                if k < ng:
+                    parts.append(blocks[k])
+            u_in = pd.concat(parts, axis=0)
+            key = dict(key, spoints=sids.tolist(), spoint_slots=where.tolist())
+            sh.count("cell:uset:spoints-" + ("between" if i % 5 == 1 else "after"))
         f = io.StringIO()
         try:
-            bulk.uset2bulk(f, u)
+            bulk.uset2bulk(f, u_in)
         except Exception as e:
             sh.violation("exception:uset2bulk", key, {"exc": repr(e)}, tags)
             continue
